@@ -22,6 +22,9 @@ type c16Case struct {
 	Stmts []model.Stmt `json:"stmts"`
 	Cache int          `json:"cache"`
 	Deep  bool         `json:"deep,omitempty"`
+	// Rewrite: whole-table UPDATEs of a table filling half the cache (rows are not
+	// spread one per leaf, so the per-row bound of the ordinary cases is too strict here)
+	Rewrite bool `json:"rewrite,omitempty"`
 }
 
 func c16Gen(rt *rapid.T) c16Case {
@@ -36,6 +39,39 @@ func c16Gen(rt *rapid.T) c16Case {
 		cfg.MaxTables, cfg.MaxCols, cfg.MinStmts = 14, 5, 40
 	}
 	db := model.NewDB()
+	if rapid.IntRange(0, 19).Draw(rt, "rewrite") == 5 {
+		// one table whose leaves fill a good half of the cache, rewritten completely two or three
+		// times with a flush in between: the same pages are dirtied in consecutive flush intervals
+		// (each time the dirty set fits the cache with room to spare)
+		c.Cache = rapid.IntRange(16, 40).Draw(rt, "cache_rw")
+		add := func(s model.Stmt) {
+			s.SQL = gen.RenderStmt(gen.Plain(), s)
+			gen.MustApply(db, s)
+			c.Stmts = append(c.Stmts, s)
+		}
+		add(model.Stmt{Kind: "create", Table: "rw", Cols: []model.Col{{Name: "a", Type: model.TInt}, {Name: "s", Type: model.TVarchar, Len: 8}}})
+		// pass 1 rewrites the rows of d1 leaves (a little under half the cache), pass 2 the same
+		// rows and those of a few more leaves: every dirty set fits the cache with room to spare
+		d1 := (c.Cache-4)/2 - rapid.IntRange(0, 2).Draw(rt, "rw_less")
+		extra := rapid.IntRange(5, 8).Draw(rt, "rw_extra")
+		rows := 4 * (d1 + extra + 3)
+		per := 4 * (c.Cache - 8)
+		for n := 0; n < rows; {
+			ins := model.Stmt{Kind: "insert", Table: "rw"}
+			for i := 0; i < per && n < rows; i++ {
+				ins.Rows = append(ins.Rows, []model.Val{model.Int(int64(n)), model.Str("v")})
+				n++
+			}
+			add(ins)
+		}
+		for k, leaves := range []int{d1, d1 + extra, d1, d1 + extra} {
+			lit := model.Int(int64(rows - 4*leaves))
+			add(model.Stmt{Kind: "update", Table: "rw", Set: []model.Assign{{Col: "s", Val: model.Str(fmt.Sprintf("p%d", k))}},
+				Where: &model.Cond{Or: [][]model.Cmp{{{L: model.Operand{Col: "a"}, Op: ">=", R: model.Operand{Lit: &lit}}}}}})
+		}
+		c.Rewrite = true
+		return c
+	}
 	if rapid.IntRange(0, 24).Draw(rt, "deep") == 9 {
 		// one table grown (in statements that fit the cache) to the size where
 		// the tree gets a third level, then single-row work at its right edge
@@ -223,11 +259,26 @@ func c16Run(c c16Case, st *vlib.Stats) string {
 			}
 		}
 	}
+	// and once more after the store was closed and opened again (USE away and back): what the
+	// small cache wrote - or failed to write - is now read from the file alone
+	if err := Reopen(engB); err != nil {
+		return fmt.Sprintf("cache of %d pages: switching databases failed: %v", c.Cache, err)
+	}
+	engB.RS().VerifSetCacheSize(c.Cache)
+	reading = true
+	msg = CompareAll(engB, mB, nil)
+	reading = false
+	if msg != "" {
+		return fmt.Sprintf("cache of %d pages, after USE of another database and back: %s", c.Cache, msg)
+	}
 	_, _, nextFree, _ := engB.RS().VerifHeader()
 	pages := int(nextFree / pageSize)
 	labels := []string{fmt.Sprintf("db-pages-%dx-cache", pages/c.Cache)}
 	if c.Deep {
 		labels = append(labels, "tree-grows-third-level")
+	}
+	if c.Rewrite {
+		labels = append(labels, "whole-table-rewrites")
 	}
 	if reloads > 0 {
 		labels = append(labels, "pages-reloaded-from-disk")
